@@ -143,6 +143,8 @@ func threadRun(L *LState) {
 			} else {
 				lv = LString(fmt.Sprint(rcv))
 			}
+			// the coroutine is dead: closures that outlive it keep their captured values
+			L.closeUpvalues(0)
 			if parent := L.Parent; parent != nil {
 				if L.wrapped {
 					L.Push(lv)
